@@ -346,9 +346,13 @@ func Main(p *Plan, tier string, replayID string, seed int64) {
 }
 
 func violKeys(r *Result) string {
+	seen := map[string]bool{}
 	ks := make([]string, 0, len(r.Violations))
 	for _, v := range r.Violations {
-		ks = append(ks, v.Key)
+		if !seen[v.Key] {
+			seen[v.Key] = true
+			ks = append(ks, v.Key)
+		}
 	}
 	sort.Strings(ks)
 	return strings.Join(ks, "|")
